@@ -263,6 +263,13 @@ func TestC16(t *testing.T) {
 		if heavy {
 			n = rapid.IntRange(2, 3).Draw(t, "heavystreams")
 		}
+		// complex values: every stream of the group also sends batches of items
+		// with map-valued attributes / bodies that serialise to 4 KiB ... 70 KiB,
+		// different bytes in every stream (20 % of the groups)
+		complexN := 0
+		if g.Crowd == 0 && !heavy && pct(t, "complex", 20) {
+			complexN = rapid.SampledFrom([]int{5000, 12000, 40000, 4097, 70000, 64 << 10}).Draw(t, "complexn")
+		}
 		for i := 0; i < n; i++ {
 			o := shared
 			if !sameOpts {
@@ -280,6 +287,17 @@ func TestC16(t *testing.T) {
 			}
 			c, _ := genOptionHistory(t, plan)
 			c.Options = o
+			if complexN > 0 {
+				sig := c.Batches[0].Signal
+				items := rapid.SampledFrom([]int{24, 8, 60}).Draw(t, "complexitems")
+				nb := rapid.IntRange(1, 3).Draw(t, "complexbatches")
+				var ins []Batch
+				for b := 0; b < nb; b++ {
+					ins = append(ins, Batch{Signal: sig, Synth: fmt.Sprintf("complex/%d/%d/%d", complexN, 7*i+b, items)})
+				}
+				at := rapid.IntRange(0, len(c.Batches)).Draw(t, "complexat")
+				c.Batches = append(c.Batches[:at:at], append(ins, c.Batches[at:]...)...)
+			}
 			g.Streams = append(g.Streams, *c)
 			shapes = append(shapes, fmt.Sprintf("%s/%d", o.String(), len(c.Batches)))
 		}
@@ -292,6 +310,10 @@ func TestC16(t *testing.T) {
 		if heavy {
 			labels = append(labels, "heavy_streams_with_large_attribute_tables")
 			shapes = append(shapes, "heavy")
+		}
+		if complexN > 0 {
+			labels = append(labels, "all_streams_send_map_values_of_4_to_70_KiB")
+			shapes = append(shapes, fmt.Sprintf("complex%d", complexN))
 		}
 		if g.Crowd > 0 {
 			labels = append(labels, "crowd_of_short_lived_neighbours", fmt.Sprintf("crowd=%d", g.Crowd))
